@@ -198,6 +198,7 @@ func c09Peek() (*slog.PrintCtx, map[string]string) {
 }
 
 var c09FreshDump map[string]string
+var c09Snap *slog.VerifRegistry // the registry of a fresh process (no custom level)
 
 func c09Used(d map[string]string) bool { // the context has formatted something before
 	for k, v := range d {
@@ -238,7 +239,7 @@ func c09Unpack(s string) (c09Exact, bool) {
 
 type c09Case struct {
 	Exact      string    `json:"exact_gob_base64,omitempty"`
-	Kind       string    `json:"kind"` // fresh | same-goroutine | other-goroutine | parallel | poison
+	Kind       string    `json:"kind"` // fresh | same-goroutine | other-goroutine | parallel | poison | late-registration
 	Probe      c09Step   `json:"probe"`
 	History    []c09Step `json:"history,omitempty"`
 	Goroutines int       `json:"goroutines,omitempty"`
@@ -303,6 +304,13 @@ func c09RunHistoryParallel(h []c09Step, g int) {
 func c09Run(c *c09Case) []byte {
 	c09FreshState()
 	switch c.Kind {
+	case "late-registration":
+		// the history runs while the custom levels are not registered yet (its records at 13..16 print
+		// as L#13..L#16); the registrations follow, then the probe
+		slog.VerifRestore(c09Snap)
+		slog.AddFlags(slog.LnoInterrupt)
+		c09RunHistorySeq(c.History)
+		encRegister()
 	case "same-goroutine":
 		c09RunHistorySeq(c.History)
 	case "other-goroutine":
@@ -360,7 +368,7 @@ func c09Corpus() []c09Step {
 	g := GVal{Kind: "group", Items: []GAttr{{Key: "x", Val: GVal{Kind: "int", I: 1}}, {Key: "y", Val: GVal{Kind: "group", Items: []GAttr{{Key: "z", Val: GVal{Kind: "string", S: "s"}}}}}}}
 	attrs := []GAttr{{Key: "a", Val: GVal{Kind: "int", I: 1}}, {Key: "g", Val: g}, {Key: "err", Val: GVal{Kind: "error", S: "boom"}}, {Key: "z", Val: GVal{Kind: "string", S: "last"}}}
 	for _, mode := range c09Modes {
-		for _, lvl := range []int{2, 4, 8, customLevel, unregLevel} {
+		for _, lvl := range []int{2, 4, 8, customLevel, unregLevel, fgOnlyLevel, fgBgLevel, lateLevel} {
 			for _, path := range []string{"thru", "api"} {
 				cfg := EncCfg{Mode: mode, Level: lvl, TagWidth: 3, MinWidth: 36, Caller: lvl == unregLevel || lvl == 2}
 				if lvl == 4 {
@@ -382,7 +390,7 @@ func c09GenHistory(r *Rng, n int) []c09Step {
 	for i := 0; i < n; i++ {
 		st := c09GenStep(r)
 		if r.Chance(25) {
-			st.Rec.Cfg.Mode, st.Rec.Cfg.Level = "color", []int{0, 1, 2, 3, 9, 10, 11}[r.Intn(7)]
+			st.Rec.Cfg.Mode, st.Rec.Cfg.Level = "color", []int{0, 1, 2, 3, 9, 10, 11, 5, 6, 8, fgBgLevel, fgOnlyLevel}[r.Intn(12)]
 			st.Rec.Msg = "coloured\nrecord\n"
 		}
 		if r.Chance(10) {
@@ -443,7 +451,8 @@ func c09Probe(r *Run, probe c09Step, kind string, runeSet map[rune]bool, fields 
 		kind string
 		n, g int
 	}
-	plans := []plan{{"same-goroutine", 1 + r.R.Intn(3), 0}, {"same-goroutine", r.R.Intn(21), 0}, {"other-goroutine", 1 + r.R.Intn(12), 1 + r.R.Intn(3)}}
+	plans := []plan{{"same-goroutine", 1 + r.R.Intn(3), 0}, {"same-goroutine", r.R.Intn(21), 0}, {"other-goroutine", 1 + r.R.Intn(12), 1 + r.R.Intn(3)},
+		{"late-registration", 1 + r.R.Intn(6), 0}}
 	if r.R.Chance(40) {
 		plans = append(plans, plan{"parallel", 4 + r.R.Intn(12), 2 + r.R.Intn(3)})
 	}
@@ -452,6 +461,19 @@ func c09Probe(r *Run, probe c09Step, kind string, runeSet map[rune]bool, fields 
 	}
 	for _, pl := range plans {
 		c := c09Case{Kind: pl.kind, Probe: probe, History: c09GenHistory(r.R, pl.n), Goroutines: pl.g}
+		if pl.kind == "late-registration" { // the history uses the probe's severity (in another format too) before it is registered
+			for i := range c.History {
+				if i == 0 || r.R.Chance(50) {
+					c.History[i].Rec.Cfg.Level = probe.Rec.Cfg.Level
+					if probe.Rec.Cfg.Level < 13 || r.R.Chance(50) {
+						c.History[i].Rec.Cfg.Level = encCustomLevels[r.R.Intn(len(encCustomLevels))]
+					}
+					if r.R.Chance(60) {
+						c.History[i].Rec.Cfg.Mode, c.History[i].Rec.Cfg.TagWidth = "color", probe.Rec.Cfg.TagWidth
+					}
+				}
+			}
+		}
 		got := c09Run(&c)
 		r.Dist["history:"+pl.kind]++
 		r.Dist[fmt.Sprintf("history-len=%d", len(c.History)/5*5)]++
@@ -584,7 +606,7 @@ func c09FreshChild(args []string) {
 	}
 	st := x.Probe
 	slog.AddFlags(slog.LnoInterrupt)
-	_ = slog.RegisterLevel(slog.Level(customLevel), "custom13")
+	encRegister()
 	os.Stdout.Write(c09One(c09Emit(st)))
 }
 
@@ -592,6 +614,7 @@ const c09Header = "Require Import Verif.Model.Base Verif.Model.Mode Verif.Model.
 
 func c09Begin() (snap *slog.VerifRegistry, restore func()) {
 	snap = slog.VerifSnapshot()
+	c09Snap = snap
 	encSetup(snap)
 	oldGC := debug.SetGCPercent(-1) // a collection empties sync.Pool: keep the contexts where the calls left them
 	oldP := runtime.GOMAXPROCS(1)   // one P = one private pool slot: the next Get returns the last Put
@@ -606,7 +629,7 @@ func c09Begin() (snap *slog.VerifRegistry, restore func()) {
 }
 
 func runC09(r *Run) {
-	r.Rule = "probes = corpus (3 formats x severities Error/Info/Always/registered custom 13/unregistered 42 x {WriteThru with explicit instant, LogAttrs->logContext with a constant time layout} x {multi-line message + nested groups + error + name/caller, bare message} + blank Print) + random records of the C04-C06 generators (all value kinds, groups, multi-line, caller); each probe: (a) on fresh pools (twice) and as the first record of a fresh child process, (b) after 1-3 and 0-20 (thorough also 20) random earlier records of random loggers/formats/paths on the same goroutine, (c) after histories run on 1-3 other goroutines one after the other and on 2-4 goroutines in parallel, (d) after poisoning the pooled context through the overlay (every field at once, then each field alone; reflection, so unknown fields are poisoned by kind); GC off and GOMAXPROCS(1) so that the pool returns the last context put back; DIRECT ORACLE: bytes == bytes on fresh pools; model: Encode.encode of the probe alone (and, for the all-fields poison, Model/PrintCtx.v's set + field-reading encoder on a hostile context) must give the observed bytes; non-trivial = the probe was formatted on a pooled context that had been used or poisoned before (same object, checked through the overlay accessor); distinct by (probe, kind, history/poison)"
+	r.Rule = "probes = corpus (3 formats x severities Error/Info/Always/registered custom 13, 14 (foreground colour only), 15 (both colours, own tags), 16/unregistered 42 x {WriteThru with explicit instant, LogAttrs->logContext with a constant time layout} x {multi-line message + nested groups + error + name/caller, bare message} + blank Print) + random records of the C04-C06 generators (all value kinds, groups, multi-line, caller); each probe: (a) on fresh pools (twice) and as the first record of a fresh child process, (b) after 1-3 and 0-20 (thorough also 20) random earlier records of random loggers/formats/paths on the same goroutine, (b') after 1-6 earlier records formatted BEFORE the custom levels 13-16 are registered (several at the probe's own severity), the registrations, then the probe, (c) after histories run on 1-3 other goroutines one after the other and on 2-4 goroutines in parallel, (d) after poisoning the pooled context through the overlay (every field at once, then each field alone; reflection, so unknown fields are poisoned by kind); GC off and GOMAXPROCS(1) so that the pool returns the last context put back; DIRECT ORACLE: bytes == bytes on fresh pools; model: Encode.encode of the probe alone (and, for the all-fields poison, Model/PrintCtx.v's set + field-reading encoder on a hostile context) must give the observed bytes; non-trivial = the probe was formatted on a pooled context that had been used or poisoned before (same object, checked through the overlay accessor); distinct by (probe, kind, history/poison)"
 	_, restore := c09Begin()
 	defer restore()
 	r.ShardSize = 120
